@@ -248,6 +248,25 @@ class C09(Prop):
                 sched = [i for i, p in enumerate(progs) for _ in p]
                 shared = True
             yield {'spec': spec, 'programs': progs, 'schedule': sched, 'shared_conn': shared}
+        # structured family: every session flushes a versioned change (all transactions pending at once, registered in
+        # a random order), then the sessions end - commit / rollback / close - in a random order, and work again
+        import itertools
+        ends = list(itertools.product([['commit'], ['rollback'], ['close']], repeat=2))
+        for j in range(18 if tier == 'quick' else 300):
+            spec = proggen.random_spec(rng, shapes=['articles', 'joined'], plugins=rng.choice([[], ['tx_changes']]))
+            k = rng.choice([2, 2, 3])
+            cname = [c['name'] for c in spec['classes'] if not c.get('parent')][0]
+            progs = []
+            for i in range(k):
+                e = rng.choice([['commit'], ['rollback'], ['close']]) if k == 3 else ends[j % len(ends)][i]
+                progs.append([['add', cname, [i + 1], {'name': i}], ['flush'], e,
+                              ['add', cname, [i + 4], {'name': i}], ['commit']])
+            first = list(range(k))
+            rng.shuffle(first)
+            order = list(range(k))
+            rng.shuffle(order)
+            sched = [i for i in first for _ in range(2)] + order + [i for i in order for _ in range(2)]
+            yield {'spec': spec, 'programs': progs, 'schedule': sched, 'shared_conn': False, 'family': 'all_pending_then_end'}
         if tier == 'thorough':
             for (k, ln) in ((2, 4), (3, 3)):
                 for rep in range(6):
@@ -324,6 +343,27 @@ class C09(Prop):
         last = obs['markers'][-1]
         if not obs.get('error') and (last['n_uow'] != 0 or last['n_scm'] != 0):
             out.violations.append({'clause': 'C09.state_left_at_quiescence', 'detail': {'n_uow': last['n_uow'], 'n_scm': last['n_scm']}})
+        # oracle 1b: "once a session's transaction has ended no per-connection versioning state for it remains" - at
+        # EVERY marker the manager holds state for at most the sessions that did something since they last ended a
+        # transaction (markers[0] is the initial state, markers[n + 1] follows schedule step n)
+        if not case.get('shared_conn'):
+            active = set()
+            pos = [0] * k
+            for n, i in enumerate(case['schedule']):
+                if n + 1 >= len(obs['markers']):
+                    break
+                st = case['programs'][i][pos[i]]
+                pos[i] += 1
+                if st[0] in ('commit', 'rollback', 'close'):
+                    active.discard(i)
+                else:
+                    active.add(i)
+                mk = obs['markers'][n + 1]
+                if mk['n_scm'] > len(active) or mk['n_uow'] > len(active):
+                    out.violations.append({'clause': 'C09.state_left_after_transaction_end',
+                                           'detail': {'marker': mk['label'], 'step': n, 'sessions_in_transaction': sorted(active),
+                                                      'n_uow': mk['n_uow'], 'n_scm': mk['n_scm']}})
+                    break
         # oracle 2: each session's tables equal its solo run
         if not obs.get('error') and not case.get('shared_conn'):
             for i in range(k):
